@@ -10,6 +10,7 @@
 import BumpProof.Arena.Step
 import BumpProof.Props.C11
 import BumpProof.Lemmas.CtrlBase
+import BumpProof.Lemmas.CtrlEx
 
 namespace C14
 open Arena Rs Ctrl
@@ -243,5 +244,42 @@ theorem claim_claimEnd (cfg : Cfg) (g : GState) (hp : g.s.prepared = none) (hc :
   refine ⟨_, claim_view cfg g hp hc, rfl, rfl, ?_, ?_⟩
   · exact List.mem_cons_self
   · exact claimEnd_resume cfg { g with s := { g.s with frames := .claim :: g.s.frames } } g.s.frames hp rfl
+
+/-! ## Non-vacuity: the hypotheses hold on concrete states (`Lemmas/CtrlEx.lean`) -/
+
+example : tryCur wCfg .range exClaimed exL Hints.sized = .ok none :=
+  tryCur_none _ _ _ _ _ rfl minAlign8 exL_valid (fun _ => ⟨3, rfl⟩)
+
+example : isLast wCfg exClaimed exBlk.addr exBlk.size = false :=
+  isLast_claimed_false _ _ _ _ rfl (by decide)
+
+example : grow wCfg exClaimed exBlk.addr exBlk.size { size := 32, align := 8 } = .ok (exClaimed, .error .claimed) :=
+  grow_claimed _ _ _ _ _ rfl minAlign8 ⟨⟨3, by decide, rfl⟩, by decide⟩ (by decide)
+    (isLast_claimed_false _ _ _ _ rfl (by decide))
+
+example : reserveDyn wCfg exClaimed 100 = .ok (exClaimed, .error .claimed) :=
+  reserveDyn_claimed _ _ _ rfl minAlign8
+
+example : HasClaim exG := List.mem_cons_self
+
+example : stepCore wCfg exG (.onClaimed (.allocLayout exL Hints.sized)) = .ok (exG, .err .claimed) :=
+  onClaimed_allocLayout _ _ _ _ List.mem_cons_self minAlign8 exL_valid (fun _ => ⟨3, rfl⟩)
+
+example : stepCore wCfg exG (.onClaimed (.grow 0 { size := 32, align := 8 } false .plain)) = .ok (exG, .err .claimed) :=
+  onClaimed_grow _ _ 0 exBlk _ _ _ List.mem_cons_self minAlign8 ⟨⟨3, by decide, rfl⟩, by decide⟩ rfl (by decide)
+    (isLast_claimed_false _ _ _ _ rfl (by decide))
+
+example : stepCore wCfg exG (.onClaimed (.deallocate 0 .plain)) = .ok ({ exG with s := removeBlock exG.s 0 }, .unit) :=
+  onClaimed_deallocate _ _ 0 exBlk _ List.mem_cons_self rfl (isLast_claimed_false _ _ _ _ rfl (by decide))
+
+example : ∃ g', stepCore wCfg exG (.onClaimed (.shrink 0 { size := 8, align := 8 } .plain)) =
+    .ok (g', .block 1 exBlk.addr exBlk.size) ∧ g'.s.chunks = exG.s.chunks ∧ g'.s.cur = exG.s.cur ∧
+      g'.marks = exG.marks ∧ g'.s.frames = exG.s.frames :=
+  onClaimed_shrink _ _ 0 exBlk _ .plain List.mem_cons_self ⟨⟨3, by decide, rfl⟩, by decide⟩ rfl (by decide) rfl
+    (isLast_claimed_false _ _ _ _ rfl (by decide))
+
+example : ∃ g1, stepCore wCfg ⟨exUp, []⟩ .claim = .ok (g1, .unit) ∧ g1.s.cur = exUp.cur ∧ g1.s.chunks = exUp.chunks ∧
+    HasClaim g1 ∧ stepCore wCfg g1 .claimEnd = .ok (⟨exUp, []⟩, .unit) :=
+  claim_claimEnd _ _ rfl rfl
 
 end C14
